@@ -21,7 +21,7 @@ class _Borrower:
         self.n = n
 
 
-def run_scenario(scn: dict, *, total: int = 1, eager: bool = False, uv: bool = False) -> dict:
+def run_scenario(scn: dict, *, total: int = 1, retry: bool = False, eager: bool = False, uv: bool = False) -> dict:
     ensure_repo_on_path()
     import anyio
 
@@ -79,53 +79,62 @@ def run_scenario(scn: dict, *, total: int = 1, eager: bool = False, uv: bool = F
                 held[which] = False
                 rec.emit(ev="rel", t=t, b=b, res="ok", **obs())
 
-        with state["scopes"][t]:
-            try:
-                for op in script:
-                    if op in ("acq", "acqf"):
-                        which = "self" if op == "acq" else "foreign"
-                        b = t if op == "acq" else 10 + t
-                        rec.emit(ev="start", t=t, b=b)
-                        try:
-                            if op == "acq":
-                                await lim.acquire()
+        ops = iter(script)              # shared by the retries: each operation is performed once
+        while True:
+            scope = state["scopes"][t]
+            with scope:
+                try:
+                    for op in ops:
+                        if op in ("acq", "acqf"):
+                            which = "self" if op == "acq" else "foreign"
+                            b = t if op == "acq" else 10 + t
+                            rec.emit(ev="start", t=t, b=b)
+                            try:
+                                if op == "acq":
+                                    await lim.acquire()
+                                else:
+                                    await lim.acquire_on_behalf_of(foreign)
+                            except asyncio.CancelledError:
+                                rec.emit(ev="end", t=t, b=b, res="cancelled", **obs())
+                                raise
+                            except RuntimeError:
+                                rec.emit(ev="end", t=t, b=b, res="error", **obs())
                             else:
-                                await lim.acquire_on_behalf_of(foreign)
-                        except asyncio.CancelledError:
-                            rec.emit(ev="end", t=t, b=b, res="cancelled", **obs())
-                            raise
-                        except RuntimeError:
-                            rec.emit(ev="end", t=t, b=b, res="error", **obs())
-                        else:
-                            held[which] = True
-                            rec.emit(ev="end", t=t, b=b, res="ok", **obs())
-                    elif op == "nowait":
-                        try:
-                            lim.acquire_nowait()
-                        except anyio.WouldBlock:
-                            rec.emit(ev="nowait", t=t, b=t, res="wouldblock", **obs())
-                        except RuntimeError:
-                            rec.emit(ev="nowait", t=t, b=t, res="error", **obs())
-                        else:
-                            held["self"] = True
-                            rec.emit(ev="nowait", t=t, b=t, res="ok", **obs())
-                    elif op == "rel":
+                                held[which] = True
+                                rec.emit(ev="end", t=t, b=b, res="ok", **obs())
+                        elif op == "nowait":
+                            try:
+                                lim.acquire_nowait()
+                            except anyio.WouldBlock:
+                                rec.emit(ev="nowait", t=t, b=t, res="wouldblock", **obs())
+                            except RuntimeError:
+                                rec.emit(ev="nowait", t=t, b=t, res="error", **obs())
+                            else:
+                                held["self"] = True
+                                rec.emit(ev="nowait", t=t, b=t, res="ok", **obs())
+                        elif op == "rel":
+                            release("self")
+                        elif op == "relf":
+                            release("foreign")
+                        elif op.startswith("set"):
+                            v = op[3:]
+                            lim.total_tokens = math.inf if v == "inf" else int(v)
+                            rec.emit(ev="settotal", v=(INF if v == "inf" else int(v)), **obs())
+                        elif op == "yield":
+                            await anyio.lowlevel.checkpoint()
+                        elif op == "end":
+                            break
+                finally:
+                    if held["self"]:
                         release("self")
-                    elif op == "relf":
+                    if held["foreign"]:
                         release("foreign")
-                    elif op.startswith("set"):
-                        v = op[3:]
-                        lim.total_tokens = math.inf if v == "inf" else int(v)
-                        rec.emit(ev="settotal", v=(INF if v == "inf" else int(v)), **obs())
-                    elif op == "yield":
-                        await anyio.lowlevel.checkpoint()
-                    elif op == "end":
-                        break
-            finally:
-                if held["self"]:
-                    release("self")
-                if held["foreign"]:
-                    release("foreign")
+            if retry and scope.cancelled_caught:
+                # the move_on_after pattern: the scope absorbed its cancellation, the task carries on
+                state["scopes"][t] = anyio.CancelScope()
+                rec.emit(ev="cdone", t=t)
+                continue
+            break
 
     async def main() -> None:
         loop = state["loop"] = uvrun.view(asyncio.get_running_loop())
